@@ -1,4 +1,5 @@
 """C01 - parse then serialize reproduces the parsed bytes."""
+from hypothesis import strategies as st
 from bv import ir, gen, decl
 from bv.hyp import run_given
 
@@ -99,9 +100,42 @@ def run_case(ctx, c):
         live.close()
 
 
+@st.composite
+def overlap_cases(draw):
+    """families built so that a backward-positioned NON-EMPTY field re-reads bytes another field consumed (or lands in a hole)"""
+    fields, size = [], 0
+    for i in range(draw(st.integers(1, 4))):
+        if draw(st.booleans()):
+            n = draw(st.sampled_from([1, 2, 3, 4]))
+            fields.append({"k": "int", "name": "f%d" % i, "n": n, "signed": draw(st.booleans()), "endian": draw(st.sampled_from([None, "little"]))})
+        else:
+            n = draw(st.integers(1, 4))
+            fields.append({"k": "data", "name": "f%d" % i, "size": ["const", n], "incl": False})
+        if draw(st.integers(0, 3)) == 0:
+            fields[-1]["move"] = {"kind": "shift", "arg": ["const", draw(st.integers(1, 3))], "ref": "current-offset"}
+            size += fields[-1]["move"]["arg"][1]
+        size += n
+    m = draw(st.integers(1, 3))
+    back = {"k": draw(st.sampled_from(["int", "data"])), "name": "g", "incl": False, "n": m, "signed": False, "endian": None, "size": ["const", m]}
+    ref = draw(st.sampled_from(["innermost-pkt", "begins", "current-offset"]))
+    k = draw(st.integers(0, max(0, size - 1)))
+    back["move"] = {"kind": "at", "arg": ["const", k if ref != "current-offset" else -draw(st.integers(1, max(1, size)))], "ref": ref}
+    fields.append(back)
+    if draw(st.booleans()):
+        fields.append({"k": "int", "name": "h", "n": 1})
+    pkts = [{"name": "P0", "opts": {}, "fields": fields}]
+    if draw(st.booleans()) and ref != "begins":
+        pkts.append({"name": "P1", "opts": {}, "fields": [{"k": "data", "name": "pre", "size": ["const", draw(st.integers(0, 3))], "incl": False},
+                                                           {"k": "ref", "name": "sub", "to": "P0"}, {"k": "int", "name": "t", "n": 1}]})
+    fam = {"pkts": pkts}
+    inputs = [("random-long", draw(st.binary(min_size=size + 8, max_size=size + 14)), 0) for _ in range(3)]
+    return {"fam": fam, "cg": draw(decl.cg_options()), "trees": [], "inputs": inputs}
+
+
 def run_shard(shard, ctx):
     n = 120 if ctx.tier == "quick" else 1200
     run_given(ctx, decl.decl_cases(PROF, ntrees=3, mutate=True, trunc_cap=0, randoms=2), lambda c: run_case(ctx, c), n)
+    run_given(ctx, overlap_cases(), lambda c: run_case(ctx, c), n // 3, salt=1)
 
 
 def replay(case, ctx):
